@@ -4,7 +4,10 @@ import glob, json, os
 HERE = os.path.dirname(os.path.dirname(os.path.abspath(__file__)))
 print('| seed | what was changed | needs, to manifest | caught by |')
 print('|---|---|---|---|')
-for d in sorted(glob.glob(os.path.join(HERE, 'seeded', '*'))):
+def _k(d):
+    a, b = os.path.basename(d).split('-')
+    return a, int(b)
+for d in sorted(glob.glob(os.path.join(HERE, 'seeded', '*-*')), key=_k):
     m = json.load(open(os.path.join(d, 'meta.json')))
     by = []
     for k, v in sorted(m.get('checks', {}).items()):
